@@ -27,7 +27,8 @@
 //       M,g,k,m,p  the payload of a Broadcast call is multiplied by m modulo p
 //                (g,k) addresses the party's own Broadcast calls: g = number of end markers (payload n)
 //                it has broadcast before, k = number of calls since the last of them
-//   plus `prop.dkg.*` summary lines for the direct predicates.
+//   plus `prop.dkg.*` summary lines for the direct predicates.  A predicate on prop.dkg.sign can rely on:
+//   an honest party with signret = 1 reports the (c, s) its Sign returned, so 0 <= s < q must hold there.
 //
 // Time: the library measures its time-outs with time(NULL).  In the party processes time() is a
 // virtual clock (shared memory) which only ticks when every living party has polled it VC_K times
@@ -545,7 +546,12 @@ static void make_case(Case &c, uint64_t seed, uint64_t idx, bool thorough, const
 	c.kind = (idx % 2 == 0) ? K_GEN : K_VSS;
 	if (idx % 6 == 5) c.kind = K_SIGN;
 	int pi;
-	if (idx < 2) pi = 13;                       // (7,2): the configuration of tests/t-dkg.cc
+	// "congruent representative" runs: in every quick run, once per kind and sign, a deviating party sends
+	// value - q / value + q instead of a value (private shares, published answers, s_i of Sign, shares of
+	// Reconstruct): idx 0, 1, 5 -> minus q, idx 4, 7, 11 -> plus q   (`--qdev -1|1` forces it)
+	int qdev = (idx == 0 || idx == 1 || idx == 5) ? -1 : (idx == 4 || idx == 7 || idx == 11) ? 1 : 0;
+	if (o.val("--qdev") != "") qdev = atoi(o.val("--qdev").c_str());
+	if (idx < 2 || qdev) pi = 13;               // (7,2): the configuration of tests/t-dkg.cc
 	else if (idx < 4) pi = 9;                   // (6,1)
 	else if (g.below(4) != 0) { static const int FP[] = { 4, 6, 7, 9, 10, 12, 13, 14 }; pi = FP[g.below(8)]; }   // pairs that admit faulty parties
 	else pi = (int)g.below(g.below(4) == 0 ? NPAIRS_ALL : NPAIRS);
@@ -568,11 +574,12 @@ static void make_case(Case &c, uint64_t seed, uint64_t idx, bool thorough, const
 	if (o.has("--fall") && 2 * c.t < c.n) fmax = c.t;
 	int f = 0;
 	if (fmax > 0 && idx != 2 && idx != 3) f = (g.below(4) == 0) ? (int)g.below(fmax + 1) : fmax;
+	if (qdev && fmax > 0) f = fmax;
 	if (o.val("--f") != "") f = std::min(fmax, atoi(o.val("--f").c_str()));
 	std::vector<int> ids; for (int i = 0; i < c.n; i++) ids.push_back(i);
 	for (int i = c.n - 1; i > 0; i--) std::swap(ids[i], ids[g.below(i + 1)]);
 	std::vector<int> faulty(ids.begin(), ids.begin() + f);
-	if (c.kind == K_VSS && f > 0 && g.below(3) != 0) { // usually the dealer is among the faulty
+	if (c.kind == K_VSS && f > 0 && (qdev || g.below(3) != 0)) { // usually the dealer is among the faulty
 		if (std::find(faulty.begin(), faulty.end(), c.dealer) == faulty.end()) faulty[0] = c.dealer;
 	}
 	std::string negq = "-" + zs(c.q);
@@ -583,6 +590,23 @@ static void make_case(Case &c, uint64_t seed, uint64_t idx, bool thorough, const
 		auto other = [&]() { int r; do r = (int)g.below(c.n); while (r == me); return r; };
 		auto honest_other = [&]() { for (int tries = 0; tries < 50; tries++) { int r = other(); if (std::find(faulty.begin(), faulty.end(), r) == faulty.end()) return r; } return other(); };
 		int t = c.t, n = c.n;
+		if (qdev && f > 0) {
+			std::string dq = (qdev < 0 ? "-" : "") + zs(c.q); const char *nm = qdev < 0 ? "minusq" : "plusq";
+			int r1 = honest_other(), r2 = r1; for (int tries = 0; tries < 50 && r2 == r1; tries++) r2 = honest_other();
+			if (c.kind == K_GEN && fi == 0) {
+				// a private share and a published answer replaced by the other representative
+				d.O(r1, (int)g.below(2), dq); if (r2 != r1) { d.O(r2, 0, "1"); d.A(1, 1 + (int)g.below(2), dq); }
+				c.tag += std::string(":share-answer:") + nm; continue;
+			}
+			if (c.kind == K_GEN) { d.A(2, (int)g.below(t + 1), qdev < 0 ? "-" + zs(c.p) : zs(c.p)); c.tag += std::string(":A-p:") + nm; continue; }
+			if (c.kind == K_VSS && me == c.dealer) {
+				d.O(r1, (int)g.below(2), dq); if (r2 != r1) { d.O(r2, 0, "1"); d.A(0, t + 2 + (int)g.below(2), dq); }
+				c.tag += std::string(":dealer-share-answer:") + nm; continue;
+			}
+			if (c.kind == K_VSS) { d2.A(0, (int)g.below(2), dq); c.tag += std::string(":recv-recshare:") + nm; continue; }
+			if (c.kind == K_SIGN && fi == 0) { d2.A(3, 0, dq); d2.O(r1, (int)g.below(2), dq); c.tag += std::string(":sign-si-share:") + nm; continue; }
+			if (c.kind == K_SIGN) { d.O(r1, (int)g.below(2), dq); c.tag += std::string(":keygen-share:") + nm; continue; }
+		}
 		if (c.kind == K_SIGN) {
 			int how = force >= 0 ? force : (int)g.below(6);
 			switch (how) {
